@@ -75,7 +75,7 @@ def findNearest (q : Quantizer) (v : F32) : Nat := findNearestUv q.allowed (toMi
 
 /-- the history-free part of `convert` -/
 def convertFresh (allowed : Nat) (v : F32) : Conversion :=
-  let v := F32.min (F32.max v zero) vMax
+  let v := F32.fmin (F32.fmax v zero) vMax
   let note := findNearestUv allowed (toMicrovolts v)
   let ss := div (ofNat note) notesPerOctave
   { note, stairstep := ss, fraction := sub v ss }
